@@ -29,6 +29,7 @@ RULE = (
     "JSONLinesWriter gets 1..3 runs through one or several writer objects onto newline-terminated prior content. "
     "Non-trivial: at least one document between start and stop and, for JSON Lines, prior content or >= 2 runs; or a "
     "document containing a newline / quote / non-ASCII character. Distinct = distinct canonical JSON of the case."
+    ' For JSONLinesWriter the file must hold one more appended line after every single document.'
 )
 ASSUMPTIONS = [
     "documents are JSON-compatible: str keys, finite floats (NaN/inf excluded), lists not tuples",
